@@ -412,7 +412,7 @@ func matcherMatchesRule(o *Ob) {
 	re := "(*regexp.Regexp).MatchString(recv.re, p0)"
 	o.Table(fn, "Matches", []Row{
 		{Name: "=", Assume: A(t("0")), Ret: [][]string{Vals("(p0 == recv.Value)", "(recv.Value == p0)")}},
-		{Name: "!=", Assume: A(t("0").Neg(), t("1")), Ret: [][]string{Vals("(p0 != recv.Value)", "(recv.Value != p0)", "!(p0 == recv.Value)")}},
+		{Name: "!=", Assume: A(t("0").Neg(), t("1")), Ret: [][]string{Vals("(p0 != recv.Value)", "(recv.Value != p0)", "!(p0 == recv.Value)", "!(recv.Value == p0)")}},
 		{Name: "=~", Assume: A(t("0").Neg(), t("1").Neg(), t("2")), Ret: [][]string{Vals(re)}},
 		{Name: "!~", Assume: A(t("0").Neg(), t("1").Neg(), t("2").Neg(), t("3")), Ret: [][]string{Vals("!" + re)}},
 		{Name: "invalid type", Assume: A(t("0").Neg(), t("1").Neg(), t("2").Neg(), t("3").Neg()), NoReturn: true},
